@@ -247,7 +247,9 @@ func c19GenFilter(t *rapid.T, s datagen.Schema, recs []model.Rec, label string) 
 	}
 	if st.Op == "|~" || st.Op == "!~" {
 		if rapid.Bool().Draw(t, label+"-re-pool") {
-			needle = rapid.SampledFrom([]string{"err", "^e", "[0-9]+", "o{2}", "(?i)get", ".", "^$", "a|b", "\\d\\.\\d", "[^a-z]"}).Draw(t, label+"-re")
+			needle = rapid.SampledFrom([]string{"err", "^e", "[0-9]+", "o{2}", "(?i)get", ".", "^$", "a|b", "\\d\\.\\d", "[^a-z]",
+				// case-insensitive literals next to characters with special case folding
+				"(?i)info", "(?i)status", "(?i)οσ", "(?i)k", "(?i)ss", "(?i)error", "(?i)İ", "(?i)straße"}).Draw(t, label+"-re")
 		} else {
 			needle = datagen.AnchorVariant(t, quoteMetaBytes(needle), label)
 		}
@@ -284,6 +286,10 @@ func c19Gen(t *rapid.T) C19Case {
 	for i := range c.Recs {
 		if s.Format == "plain" && rapid.IntRange(0, 4).Draw(t, "rawline") == 0 {
 			c.Recs[i].Line = gen.BS(rapid.SliceOfN(rapid.Byte(), 0, 12).Draw(t, "rawbytes"))
+		}
+		if s.Format == "plain" && rapid.IntRange(0, 5).Draw(t, "foldline") == 0 {
+			// Characters whose case folding differs between Unicode simple folding and ToLower/ToUpper.
+			c.Recs[i].Line = gen.BS(rapid.SampledFrom([]string{"İNFO started", "ſtatus ok", "λόγος", "STRASSE straße", "temp 300K", "ERROR Error error", "ǅ ǆ Ǆ", "İ", "info INFO"}).Draw(t, "foldtext"))
 		}
 		if len(s.Labels) > 0 && rapid.IntRange(0, 9).Draw(t, "rawlabel") == 0 {
 			c.Recs[i].Labels[s.Labels[0].Name] = string(rapid.SliceOfN(rapid.Byte(), 0, 5).Draw(t, "rawlabelbytes"))
